@@ -307,7 +307,10 @@ def run_state(case, rec):
     prefix, hist, model = st['prefix'], st['history'], st['model']
     obs = []
     for disp, extra, debug in (('sync', False, False), ('sync', True, False), ('async', False, False), ('async', True, False),
-                               ('sync', False, True), ('async', True, True), ('sync', 'late', False), ('async', 'late', False)):
+                               ('sync', False, True), ('async', True, True), ('sync', 'late', False), ('async', 'late', False),
+                               ('sync', 'replace-after-call', False), ('async', 'replace-after-call', False)):
+        if isinstance(extra, str) and (case['index'] % 2 == 0) != (disp == 'sync'):
+            continue          # the two history variants alternate between the dispatchers from state to state
         with debug_logging(debug):
             reg = build(prefix, hist)
             d = pjrpc.server.AsyncDispatcher() if disp == 'async' else pjrpc.server.Dispatcher()
@@ -324,12 +327,12 @@ def run_state(case, rec):
                 d.registry.merge(reg)
                 extra = False
             else:
-                if extra:
+                if extra is True:
                     # the dispatcher's own registration calls, before and after attaching the registry
                     d.add(f3)
                     m['f3'] = 'f3'
                 d.add_methods(reg)
-            if extra:
+            if extra is True:
                 # the SAME registry object changes and is attached again: additions and replacements must arrive
                 reg.add(f3, name='late')
                 d.add(f2, name=join(prefix, 'late2'))
@@ -361,6 +364,54 @@ def run_state(case, rec):
                     cls = 'private / non-callable view member' if any(name.endswith(x) for x in VIEW_FORBIDDEN) else 'name that was never registered'
                     rec.violation('C15:%s is reachable' % cls, dict(prefix=prefix, history=show(hist), disp=disp, extra=extra, probe=name),
                                   expected=-32601, observed=r)
+            if extra == 'replace-after-call' and m:
+                # every name has been CALLED by now; now existing names are re-registered with other functions through each public
+                # route and a view method is replaced by a function: the later registration must be the one that answers
+                names = sorted(m)
+                routes = [lambda n: d.add(f3, name=n), lambda n: d.registry.add(f2, name=n), lambda n: d.add_methods(Method(f1, name=n)),
+                          lambda n: d.registry.add_methods(Method(f3, name=n))]
+                tags = ['f3', 'f2', 'f1', 'f3']
+                changed = {}
+                for k, n in enumerate(names[:4]):
+                    probe(d, disp == 'async', n)         # the name is resolved once more just before it is replaced
+                    routes[(k + 1) % 4](n)
+                    changed[n] = tags[(k + 1) % 4]
+                    r = probe(d, disp == 'async', n)
+                    rec.transitions += 2
+                    if r.get('result') != changed[n]:
+                        rec.violation('C15:a name re-registered after it had been called still reaches the earlier function', dict(prefix=prefix, history=show(hist), disp=disp, extra=extra, probe=n),
+                                      expected=changed[n], observed=r)
+                        break
+
+                class KV(pjrpc.server.ViewMixin):
+                    def __init__(self, context):
+                        super().__init__()
+                        self.db = context['db']          # KeyError for a context without that key
+
+                    def fetch(self):
+                        return 'KV.fetch'
+                d.registry.view(KV, context='context', prefix='kv')
+                m2 = dict(m, **changed)
+                for name, tag in sorted(m2.items()):
+                    r = probe(d, disp == 'async', name)
+                    rec.transitions += 1
+                    if r.get('result') != tag:
+                        rec.violation('C15:a name re-registered after it had been called still reaches the earlier function', dict(prefix=prefix, history=show(hist), disp=disp, extra=extra, probe=name),
+                                      expected=tag, observed=r)
+                        break
+                # a registered view method whose view cannot be built for this request exists all the same: never -32601
+                text = json.dumps({'jsonrpc': '2.0', 'id': 1, 'method': 'kv.fetch'})
+                if disp == 'async':
+                    loop = VLoop()
+                    try:
+                        r = json.loads(loop.run(d.dispatch(text, context={}))[0])
+                    finally:
+                        loop.close()
+                else:
+                    r = json.loads(d.dispatch(text, context={})[0])
+                if r.get('error', {}).get('code') in (-32601, None):
+                    rec.violation('C15:a registered method whose view constructor fails is answered like an unregistered name', dict(prefix=prefix, history=show(hist), disp=disp, extra=extra),
+                                  expected='an error other than -32601 (the method exists)', observed=r)
             obs.append(len(m))
     rec.states += 1
     rec.traces += 1
